@@ -19,13 +19,18 @@ BAD_OPS = ["edge_bad"]
 
 
 class World:
-    def __init__(self, nv, nuni=0, vclasses=None):
+    def __init__(self, nv, nuni=0, vclasses=None, dupuid=False):
         from edgegraph.structure import Universe
         from eglib import classes
 
         self.classes = classes
         nplain = max(0, nv - nuni)
-        self.vs = [classes.make_vertex(i, None if not vclasses else classes.VERTEX_CLASSES[vclasses[i % len(vclasses)] % 4]) for i in range(nplain)]
+        # dupuid: distinct vertices carrying EQUAL uids (uids are given by the caller, the library never relies on
+        # their uniqueness for structure)
+        WC = classes.WORLD_VERTEX_CLASSES
+        nwc = 4 if dupuid else len(WC)      # value-hashing vertices only with unique uids
+        self.vs = [classes.make_vertex(i, None if not vclasses else WC[vclasses[i % len(vclasses)] % nwc],
+                                       uid=(7 + i % 2) if dupuid else None) for i in range(nplain)]
         self.vs += [Universe() for _ in range(nuni)]
         self.uidx = list(range(nplain, nplain + nuni))
         self.ls = []
@@ -75,7 +80,7 @@ class World:
             if not nl or nv >= 6:
                 return None
             lst = sorted({i % nl, j % nl}) if k & 1 else [i % nl, j % nl][: 1 + (k >> 1) % 2]
-            return ("newv", lst)
+            return ("newv", lst, (k >> 3) % 3)
         if name in ("ua", "ur", "va", "vr"):
             if not self.uidx:
                 return None
@@ -191,7 +196,9 @@ class World:
         if name == "uf":
             return self.ls[r[1]].unlink_from(self.v(r[2]))
         if name == "newv":
-            nvx = Vertex(links=[self.ls[x] for x in r[1]], attributes={"i": len(self.vs)})
+            arg = [self.ls[x] for x in r[1]]
+            arg = (arg, tuple(arg), (x for x in arg))[r[2] if len(r) > 2 else 0]    # any iterable, also one-shot
+            nvx = Vertex(links=arg, attributes={"i": len(self.vs)})
             self.vs.append(nvx)
             return nvx
         if name == "ua":
